@@ -199,3 +199,19 @@ pub proof fn lemma_upd_carriers(w0: Seq<Factor>, w1: Seq<Factor>, i: int, v: Ren
     if carrier_in(w0, c) { let j = choose|j: int| 0 <= j < w0.len() && (#[trigger] w0[j]).carrier == c; assert(w1[j].carrier == c) by { if j != i { assert(w1[j] == w0[j]); } } }
     if carrier_in(w1, c) { let j = choose|j: int| 0 <= j < w1.len() && (#[trigger] w1[j]).carrier == c; assert(w0[j].carrier == c) by { if j != i { assert(w1[j] == w0[j]); } } }
 }
+pub open spec fn set_iter_ok(s: Set<Carrier>, rem: Seq<&Carrier>) -> bool {
+    &&& rem.no_duplicates()
+    &&& (forall|c: Carrier| s.contains(c) ==> exists|j: int| 0 <= j < rem.len() && *(#[trigger] rem[j]) == c)
+}
+pub proof fn lemma_all_grid(sv: Set<Carrier>, rem: Seq<&Carrier>, n: int, w: Seq<Factor>, all_: bool)
+    requires set_iter_ok(sv, rem), 0 <= n <= rem.len(),
+        all_ ==> forall|j: int| 0 <= j < n ==> (#[trigger] find_spec(w, *rem[j], Source::RED, Dest::SUMINISTRO, Step::A)) is Some,
+    ensures n == rem.len() && all_ ==> forall|c: Carrier| sv.contains(c) ==> (#[trigger] find_spec(w, c, Source::RED, Dest::SUMINISTRO, Step::A)) is Some,
+{
+    if n == rem.len() && all_ {
+        assert forall|c: Carrier| sv.contains(c) implies (#[trigger] find_spec(w, c, Source::RED, Dest::SUMINISTRO, Step::A)) is Some by {
+            let j = choose|j: int| 0 <= j < rem.len() && *(#[trigger] rem[j]) == c;
+            assert(find_spec(w, *rem[j], Source::RED, Dest::SUMINISTRO, Step::A) is Some);
+        }
+    }
+}
